@@ -452,4 +452,5 @@ class GetInputCoercer(Contract):
 
 
 CONTRACTS = COMMON_CONTRACTS + [GetInputCoercer(), VariableCoercer(), CoerceVariables(), DidYouMean(), EnumC(), InputFieldValue(), InputObjectC(), NonNull(), ListC(), NullWrapper(), ScalarC(), DirectivesC()]
-LEMMAS = []
+from pyvc import listlib as _LL   # noqa: E402
+LEMMAS = list(_LL.LEMMAS)
